@@ -23,6 +23,7 @@ type LoopAnn struct {
 	Decreases *SExp
 	Apply     []*SExp   // facts justified by lemmas, assumed at the loop head
 	Asserts   []*Clause // proof steps checked (then assumed) at the end of an iteration, before the invariant
+	AssertsNext []*Clause // same, but loop-carried names denote the values for the next iteration (x@head = this iteration's)
 }
 
 type Contract struct {
@@ -270,6 +271,8 @@ func (p *Prog) parseContract(x *SExp, pkg string) (*Contract, error) {
 					la.Apply = append(la.Apply, la2...)
 				case "assert":
 					la.Asserts = append(la.Asserts, &Clause{Label: la2[0].Atom, X: la2[1]})
+				case "assert-next":
+					la.AssertsNext = append(la.AssertsNext, &Clause{Label: la2[0].Atom, X: la2[1]})
 				default:
 					return nil, fmt.Errorf("%s: unknown loop clause %s", name, li.Head())
 				}
